@@ -356,7 +356,7 @@ func parentMain(prop, tier string) int {
 				cmd.Stderr = ef
 				cmd.Env = append(os.Environ(), "VERIF_WORKER=1")
 				if m.Race {
-					cmd.Env = append(cmd.Env, "GORACE=halt_on_error=0 log_path="+filepath.Join(dir, fmt.Sprintf("race.w%d", w)))
+					cmd.Env = append(cmd.Env, "GORACE=halt_on_error=0 exitcode=0 log_path="+filepath.Join(dir, fmt.Sprintf("race.w%d", w)))
 				}
 				runErr := cmd.Run()
 				ef.Close()
